@@ -440,18 +440,57 @@ def run(ck: Check):
             m.forward = lambda x: chain(1.0 - x)
         elif kind == "layer-pre-hook":
             l.register_forward_pre_hook(lambda mod, inp: (1.0 - inp[0],))
+        elif kind == "instance-forward_python":
+            plain = l.forward_python
+            l.forward_python = lambda x: 1.0 - plain(x)
+        elif kind == "groupsum-tau-negative-later":
+            m[-1].tau = -1.0                 # the model then raises on every input: there is no eval function to compile
+        elif kind == "groupsum-k-zero-later":
+            m[-1].k = 0
         return m, (5,)
+    def _mk_conv_patched():
+        torch.manual_seed(ck.seed + 14)
+        l = _LC14(in_dim=(3, 3), device="cpu", channels=1, num_kernels=2, tree_depth=1, receptive_field_size=2, weight_init="random")
+        plain = l._raw_level_weights
+        l._raw_level_weights = lambda level: plain(level).flip(-1)
+        return torch.nn.Sequential(l, torch.nn.Flatten(), _GS(2, 1.0, device="cpu")), (1, 3, 3)
+    import torch.nn.modules.module as _tm
     for kind in ("subclass-forward_python", "subclass-level-weights", "instance-forward", "layer-hook", "layer-pre-hook", "container-hook",
-                 "container-instance-forward"):
+                 "container-instance-forward", "instance-forward_python", "instance-level-weights", "global-forward-hook",
+                 "groupsum-tau-negative-later", "groupsum-k-zero-later"):
         case = {"kind": "modified-layer", "how": kind}
         ck.case(case, nontrivial=True, kind="modified-layer")
-        model, shp = _mk(kind)
+        model, shp = _mk_conv_patched() if kind == "instance-level-weights" else _mk("plain" if kind == "global-forward-hook" else kind)
+        ghandle = None
+        if kind == "global-forward-hook":
+            ghandle = _tm.register_module_forward_hook(lambda mod, inp, out: (1.0 - out) if isinstance(mod, _LD14) else None)
         try:
-            net = compiled.build(model, 8)
-            compiled.compile_net(net)
-        except Exception:
-            ck.count("modified_layer_refused")
-            continue
+            try:
+                net = compiled.build(model, 8)
+                compiled.compile_net(net)
+            except Exception:
+                ck.count("modified_layer_refused")
+                continue
+            n_in = int(np.prod(shp))
+            rws, _ = nets.input_rows(rng, n_in, 9)
+            x = torch.tensor(rws, dtype=torch.float32).reshape(len(rws), *shp)
+            model.eval()
+            try:
+                with torch.no_grad():
+                    exp = [[int(round(v)) for v in r] for r in model(x).reshape(len(rws), -1).tolist()]
+            except Exception as e:
+                ck.disagree("a model that raises on every input (it has no eval-mode function) was compiled into a library that returns numbers",
+                            dict(case, model_raises=repr(e)[:120]), signature={"what": "modified-layer", "how": kind})
+                continue
+            got = [[int(v) for v in np.array(r).reshape(-1)] for r in compiled.forward(net, np.array(rws, dtype=bool).reshape(len(rws), *shp).tolist())]
+        finally:
+            if ghandle is not None:
+                ghandle.remove()
+        if got != exp:
+            ck.disagree("a layer / container whose function was changed (subclass overriding a method forward goes through, forward replaced on the "
+                        "instance, forward hook) is compiled as the plain layer", dict(case, differing_rows=sum(1 for a, b in zip(got, exp) if a != b), rows=len(exp)),
+                        signature={"what": "modified-layer", "how": kind})
+        continue
         n_in = int(np.prod(shp))
         rws, _ = nets.input_rows(rng, n_in, 9)
         x = torch.tensor(rws, dtype=torch.float32).reshape(len(rws), *shp)
